@@ -17,7 +17,8 @@ Init == phase \in {"case", "raw", "elem", "gps"} /\ chunk \in 0..((Size(phase) +
 Next == idx = -1 /\ idx' \in (chunk * ChunkSize)..((chunk + 1) * ChunkSize - 1) /\ idx' < Size(phase) /\ UNCHANGED <<phase, chunk>>
 Spec == Init /\ [][Next]_vars
 
-DocumentedErrors == {"ValueError", "KeyError", "NotImplementedError", "AssertionError"}
+\* the documented "undefined / not implemented" errors (an AssertionError is not one of them; none occurs on the unchanged tree)
+DocumentedErrors == {"ValueError", "KeyError", "NotImplementedError"}
 
 Judge(ph, i) ==
   CASE ph = "case" ->
